@@ -2030,6 +2030,12 @@ def run(ctx: vlib.Ctx):
     # (T) the copy / by-reference / comprehension decision of the model is the function translated from
     # pack.py:pack_collection on this run (kernel K15)
     ctx.theorems("props/C18_kernel.vo", ["C18_seq_decision_is_source", "C18_map_decision_is_source"], kernels=["K15"])
+    # (T) decode side: the container the model's unpackers build per origin is the template the if/elif chain of
+    # unpack.py:unpack_collection selects (kernel K118a, translated on this run); no branch of that chain, of
+    # unpack_tuple, unpack_named_tuple or unpack_typed_dict returns its input or a shallow copy of it
+    ctx.trusted.append("K118a origin_facts: issubclass / `is` of each modelled origin class against the classes named in "
+                       "unpack_collection, evaluated by CPython when the kernel is generated")
+    ctx.theorems("props/C18_unpack_kernel.vo", UNPACK_KERNEL_THEOREMS, kernels=["K118a"])
     br = ctx.theorems("props/C18_share.vo", THEOREMS)
     if not ctx.quick() and br.ok:
         # second opinion: the independent checker re-validates the compiled library and reports every axiom
@@ -2126,6 +2132,9 @@ def run(ctx: vlib.Ctx):
             drop_module(c.mod)
 
 
+UNPACK_KERNEL_THEOREMS = ["C18_unpack_source_rebuilds", "C18_unpack_structs_rebuild", "C18_unpack_seq_is_source",
+                          "C18_unpack_map_is_source", "C18_unpack_tuple_is_source", "C18_unpack_compiler_is_source",
+                          "C18_decode_fresh_source"]
 THEOREMS = ["C18_fresh_distinct", "C18_decode_fresh_distinct", "C18_labels_arg_or_supply", "C18_two_calls_disjoint", "C18_decode_two_calls_disjoint", "C18_wrapper_transparent", "C18_share", "C18_share_unionfree", "C18_share_union_refuted",
             "C18_decode_dialect_independent", "C18_decode_fresh", "C18_default_fresh", "C18_decode_all_fresh", "C18_decode_union_fresh", "C18_no_mutation",
             "C18_decode_no_mutation", "C18_share_partial", "C18_share_full_refuted"]
